@@ -26,16 +26,19 @@ struct Par {
   bool exact;           // TransverseMercatorExact admissible (f > 0)
   bool quick;
   bool utm;             // the static UTM() instances have these parameters
+  // series outside its documented accuracy domain: calibrated envelope of the ground-distance error (metres, for a = WGS84 a) in the bands
+  // of distance from the (anti)central meridian  <= 35, <= 50, <= 60, <= 70, <= (1-2|e|)90 ; each >= 4 x worst observed on the unchanged tree
+  double env[5];
 };
 static const Par PARS[] = {
-  {"WGS84/0.9996", WGS84_A, WGS84_F, 0.9996, true, true, true, true},
-  {"WGS84/1", WGS84_A, WGS84_F, 1.0, true, true, true, false},
-  {"sphere-a1", 1.0, 0.0, 1.0, true, false, true, false},
-  {"Airy/0.9996012717", 6377563.396, 1 / 299.3249646, 0.9996012717, true, true, false, false},
-  {"f=1/150,a=1,k0=2", 1.0, 1 / 150.0, 2.0, true, true, false, false},
-  {"f=+0.01", WGS84_A, 0.01, 1.0, false, true, false, false},
-  {"f=-0.01", WGS84_A, -0.01, 1.0, false, false, false, false},
-  {"f=+0.1", WGS84_A, 0.1, 1.0, false, true, false, false},
+  {"WGS84/0.9996", WGS84_A, WGS84_F, 0.9996, true, true, true, true, {0, 4e-7, 2.5e-5, 7e-3, 0.35}},
+  {"WGS84/1", WGS84_A, WGS84_F, 1.0, true, true, true, false, {0, 4e-7, 2.5e-5, 7e-3, 0.35}},
+  {"sphere-a1", 1.0, 0.0, 1.0, true, false, true, false, {0, 0, 0, 0, 0}},           // f = 0: the series terminates, documented tolerance everywhere
+  {"Airy/0.9996012717", 6377563.396, 1 / 299.3249646, 0.9996012717, true, true, false, false, {0, 4e-7, 2.5e-5, 7e-3, 0.35}},
+  {"f=1/150,a=1,k0=2", 1.0, 1 / 150.0, 2.0, false, true, false, false, {5e-7, 1e-4, 6e-3, 0.8, 0.8}},
+  {"f=+0.01", WGS84_A, 0.01, 1.0, false, true, false, false, {4e-6, 8e-4, 0.06, 0.5, 0.5}},
+  {"f=-0.01", WGS84_A, -0.01, 1.0, false, false, false, false, {4e-6, 7e-4, 0.05, 0.5, 0.5}},
+  {"f=+0.1", WGS84_A, 0.1, 1.0, false, true, false, false, {0.3, 0.3, 0.3, 0.3, 0.3}},
 };
 static const int NPAR = sizeof(PARS) / sizeof(PARS[0]);
 
@@ -131,6 +134,15 @@ static Ora expect(const Geo& G, double lat, double dlon, bool extendp, ld vt) {
     return oracle_raw(G, al, ad, tm_ode::STANDARD, vt);
   }
   Ora o;
+  if (G.e2 < 0 && ad > 90 && al > 0) {
+    // prolate: the branch points lie on the meridians dlon = +-90 off the equator; the library's convention (reflection about dlon = 90,
+    // i.e. continuation over the pole along the central-meridian ellipse) puts the cut on dlon = +-90, so the far side is referred to
+    // the near-side oracle by xi -> 2Q - xi
+    o = oracle_raw(G, al, 180 - ad, tm_ode::STANDARD, vt);
+    if (!o.valid) return o;
+    o.y = sl * (2 * G.Q * G.a * G.k0 - o.y); o.x *= sd; o.gamma = sl * sd * (180 - o.gamma);
+    return o;
+  }
   if (al == 0 && ad > 90) {
     double inner = 180 - ad;
     o = (oblate && inner >= (double)G.lonb) ? oracle_raw(G, 0.0, inner, tm_ode::VIA_NORTH, vt) : oracle_raw(G, 0.0, inner, tm_ode::STANDARD, vt);
@@ -211,7 +223,7 @@ int main(int argc, char** argv) {
     }
     std::sort(dl.begin(), dl.end());
     std::vector<double> dlons; for (double v : dl) { dlons.push_back(v); dlons.push_back(-v); }
-    const ld e_ = G.e2 > 0 ? sqrtl(G.e2) : 0, safe = (1 - 2 * e_) * 90;     // documented "safe side" limit of the series
+    const ld e_ = sqrtl(fabsl(G.e2)), safe = (1 - 2 * e_) * 90;             // documented "safe side" limit of the series, (1-2e)90 (|e| for prolate)
 
     // ============================================================== subcheck: forward lattice
     ctx.sub(std::string("lattice/") + P.name);
@@ -238,6 +250,10 @@ int main(int argc, char** argv) {
             for (auto& e : extra) f.push_back(e);
             ctx.fail(where + " " + kind, where + ": " + msg, f);
           };
+          // Math::tauf converges only linearly for prolate ellipsoids (known finding): Reverse results on f < 0 carry the field tauf=prolate-reverse
+          // when the position error is below the gross bound 4 a (2.2 |e^2|)^6 (the size that defect can produce); anything larger is reported plainly
+          const ld tauf_gross = 4 * G.a * powl(2.2L * fabsl(G.e2), 6);
+          auto PRO = [&](ld err_ground) -> mc::Fields { if (P.f < 0 && err_ground <= tauf_gross) return {{"tauf", "prolate-reverse"}}; return {}; };
           // ---- documented domain of the extendp variant
           bool south_ext = false;
           if (I.extendp) {
@@ -265,15 +281,13 @@ int main(int argc, char** argv) {
           if (I.series) {
             tol.pos = 10e-9L * ascale; tol.krel = 1.2e-13L;
             if (cmdist > (double)safe + 1e-6) { acc = false; band = "beyond (1-2e)90"; }
-            else if (!P.series_doc || cmdist > 35) {
-              calibrated = true; band = "calibrated";
-              // calibrated envelope: >= 4 x worst observed on the unchanged tree per band (ground distance, metres, for a = WGS84 a)
-              ld env;
-              if (P.series_doc) env = cmdist <= 50 ? 2e-7L : cmdist <= 60 ? 5e-5L : cmdist <= 70 ? 2e-2L : 2.0L;
-              else if (std::fabs(P.f) <= 0.0100001) env = cmdist <= 35 ? 2e-5L : cmdist <= 50 ? 2e-3L : cmdist <= 60 ? 0.3L : 300.0L;
-              else env = cmdist <= 20 ? 30.0L : -1;
-              if (env < 0) { acc = false; band = "f=0.1 beyond 20 deg"; }
-              tol.pos = env * ascale; tol.krel = std::max<ld>(1.2e-13L, 40 * env / WGS84_A); tol.gfloor = std::max<ld>(tol.gfloor, tol.krel / DEGL);
+            else {
+              int b = cmdist <= 35 ? 0 : cmdist <= 50 ? 1 : cmdist <= 60 ? 2 : cmdist <= 70 ? 3 : 4;
+              if (P.env[b] > 0) {
+                calibrated = true; band = "calibrated";
+                ld env = P.env[b];
+                tol.pos = env * ascale; tol.krel = std::max<ld>(1.2e-13L, 40 * env / WGS84_A); tol.gfloor = std::max<ld>(tol.gfloor, tol.krel / DEGL);
+              }
             }
           } else { tol.pos = 16e-9L * ascale; tol.krel = 1.4e-13L; }
           const std::string cls = I.series ? (calibrated ? "series-envelope" : "series") : (south_ext ? "exact-extsouth" : "exact");
@@ -285,7 +299,7 @@ int main(int argc, char** argv) {
           }
 
           // ---- poles: x = 0, y = +- k0 * quarter meridian, k = k0, gamma = +-dlon
-          if (pole) {
+          if (pole && acc) {
             ld sgn = lat > 0 ? 1 : -1;
             ld ey = sgn * G.Q * G.a * G.k0;
             ld err = hypotl((ld)x, (ld)y - ey);
@@ -300,7 +314,7 @@ int main(int argc, char** argv) {
           }
 
           // ---- central meridian: x = 0 exactly, gamma = 0 exactly, y = k0 * meridian distance, k = k0
-          if (dlon == 0 && !pole) {
+          if (dlon == 0 && !pole && acc) {
             if (!(x == 0)) FAIL("cm-easting-nonzero", "x=" + fx(x) + " on the central meridian");
             if (!(gam == 0)) FAIL("cm-convergence-nonzero", "gamma=" + fx(gam) + " on the central meridian");
             ld ey = fabsl((ld)y - merid);
@@ -333,7 +347,7 @@ int main(int argc, char** argv) {
               else if (eg > tg || ek > tk) FAIL("extendp-south-accuracy", "gamma err " + mc::fmtl(eg) + " deg (tol " + mc::fmtl(tg) + "), scale rel err " + mc::fmtl(ek) + " (tol " + mc::fmtl(tk) + ")", {{"region", "extendp lat<0"}, {"quantity", "forward-gamma-k"}});
             } else {
               ctx.worst(cls + ".fwd.pos/tol", (double)(err / tol.pos), where);
-              if (calibrated) ctx.worst(std::string("series-envelope.") + P.name + (cmdist <= 35 ? ".<=35" : cmdist <= 50 ? ".<=50" : cmdist <= 60 ? ".<=60" : cmdist <= 70 ? ".<=70" : ".<=safe") + ".pos_m(a=WGS84)", (double)(err / ascale), where);
+              if (calibrated || I.series) ctx.worst(std::string("series-envelope.") + P.name + (cmdist <= 35 ? ".<=35" : cmdist <= 50 ? ".<=50" : cmdist <= 60 ? ".<=60" : cmdist <= 70 ? ".<=70" : ".<=safe") + ".pos_m(a=WGS84)", (double)(err / ascale), where);
               if (err > tol.pos) FAIL(calibrated ? "fwd-oracle-envelope" : "fwd-oracle", "ground error " + mc::fmtl(err) + " m > " + mc::fmtl(tol.pos) + " (x=" + fx(x) + " y=" + fx(y) + " oracle " + mc::fmtl(R.x) + "," + mc::fmtl(R.y) + ")");
               ctx.worst(cls + ".fwd.gamma/tol", (double)(eg / tg), where);
               if (!calibrated) ctx.worst(cls + ".fwd.gamma-excess-over-cond_deg", (double)(eg - cd / DEGL), where);
@@ -373,14 +387,14 @@ int main(int argc, char** argv) {
               else if (!(err <= trt)) FAIL("extendp-south-accuracy", "round trip ground error " + mc::fmtl(err) + " m > " + mc::fmtl(trt), {{"region", "extendp lat<0"}, {"quantity", "roundtrip"}});
             } else {
               ctx.worst(cls + ".roundtrip/tol", (double)(err / trt), where);
-              if (!(err <= trt)) FAIL("roundtrip", "reverse(forward) = lat " + fx(la2) + " lon " + fx(lo2) + ", ground error " + mc::fmtl(err) + " m > " + mc::fmtl(trt));
+              if (!(err <= trt)) FAIL("roundtrip", "reverse(forward) = lat " + fx(la2) + " lon " + fx(lo2) + ", ground error " + mc::fmtl(err) + " m > " + mc::fmtl(trt), PRO(err));
               if (!pole && R.valid) {
                 ld eg = fabsl(angdiff((ld)g2, (ld)gam)), ek = fabsl((ld)k2 / (ld)k - 1);
                 ld tg = 2 * (tol.gfloor + cd / DEGL), tk = 2 * (tol.krel + cd);
                 ctx.worst(cls + ".rev-vs-fwd.gamma/tol", (double)(eg / tg), where);
                 ctx.worst(cls + ".rev-vs-fwd.k/tol", (double)(ek / tk), where);
-                if (eg > tg) FAIL("rev-convergence", "Reverse gamma=" + fx(g2) + " Forward gamma=" + fx(gam) + " tol " + mc::fmtl(tg));
-                if (ek > tk) FAIL("rev-scale", "Reverse k=" + fx(k2) + " Forward k=" + fx(k) + " tol " + mc::fmtl(tk));
+                if (eg > tg) FAIL("rev-convergence", "Reverse gamma=" + fx(g2) + " Forward gamma=" + fx(gam) + " tol " + mc::fmtl(tg), PRO(err));
+                if (ek > tk) FAIL("rev-scale", "Reverse k=" + fx(k2) + " Forward k=" + fx(k) + " tol " + mc::fmtl(tk), PRO(err));
               }
             }
             if (!(lo2 >= -180 && lo2 <= 180 && std::fabs(la2) <= 90)) FAIL("rev-range", "lat=" + fx(la2) + " lon=" + fx(lo2));
@@ -405,11 +419,11 @@ int main(int argc, char** argv) {
               else if (eg > tg || ek > tk) FAIL("extendp-south-accuracy", "Reverse gamma err " + mc::fmtl(eg) + " deg, scale rel err " + mc::fmtl(ek), {{"region", "extendp lat<0"}, {"quantity", "reverse-gamma-k"}});
             } else {
               ctx.worst(cls + ".rev-oracle.pos/tol", (double)(err / trt), where);
-              if (!(err <= trt)) FAIL("rev-oracle", "Reverse(oracle image) = lat " + fx(la2) + " lon " + fx(lo2) + ", ground error " + mc::fmtl(err) + " m > " + mc::fmtl(trt));
+              if (!(err <= trt)) FAIL("rev-oracle", "Reverse(oracle image) = lat " + fx(la2) + " lon " + fx(lo2) + ", ground error " + mc::fmtl(err) + " m > " + mc::fmtl(trt), PRO(err));
               ctx.worst(cls + ".rev-oracle.gamma/tol", (double)(eg / tg), where);
               ctx.worst(cls + ".rev-oracle.k/tol", (double)(ek / tk), where);
-              if (eg > tg) FAIL("rev-oracle-convergence", "gamma=" + fx(g2) + " oracle " + mc::fmtl(R.gamma) + " tol " + mc::fmtl(tg));
-              if (ek > tk) FAIL("rev-oracle-scale", "k=" + fx(k2) + " oracle " + mc::fmtl(R.k) + " tol " + mc::fmtl(tk));
+              if (eg > tg) FAIL("rev-oracle-convergence", "gamma=" + fx(g2) + " oracle " + mc::fmtl(R.gamma) + " tol " + mc::fmtl(tg), PRO(err));
+              if (ek > tk) FAIL("rev-oracle-scale", "k=" + fx(k2) + " oracle " + mc::fmtl(R.k) + " tol " + mc::fmtl(tk), PRO(err));
             }
           }
 
